@@ -1,6 +1,7 @@
 import FFVerif.Props.C16
 import FFVerif.Props.C16Kron
 import FFVerif.Props.C16KronIns
+import FFVerif.Props.C16KronLoop
 import FFVerif.Pins.pinTensorInsert
 import FFVerif.Pins.pinTensorMerge
 import FFVerif.Pins.pinTensorTranspose
@@ -41,6 +42,12 @@ import FFVerif.Pins.pinTensorTranspose
 #print axioms FFVerif.C16Kron.insertSpec_single
 #print axioms FFVerif.C16Kron.tensorInsertNum_single_isChain'
 #print axioms FFVerif.C16Kron.tensorInsertNum_eq_chain_partial
+#print axioms FFVerif.C16Kron.singleInsertNum_bookkeeping
+#print axioms FFVerif.C16Kron.tensorInsertNum_isChain'
+#print axioms FFVerif.C16Kron.tensorInsertNum_eq_chain
+#print axioms FFVerif.C16Kron.tensorInsertNum_eq_tensorMergeNum
+#print axioms FFVerif.C16Kron.tensorInsertNumInt_isChain'
+#print axioms FFVerif.C16Kron.isChain_flatten'
 #print axioms FFVerif.C16Kron.kronMat_apply
 #print axioms FFVerif.C16Kron.isChain_iff_kronMat
 #print axioms FFVerif.C16Kron.tensorChain_eq_kron
